@@ -21,7 +21,7 @@ CHECKS = {
    note="resolver model written from the statements; a worker that dies or stalls is attributed to the announced program and reported as non-termination",
    technique=STARTSIM + "; oracle: start-outcome + resolver reference model, step budget"),
  "C06": dict(cat="exploration", engine="startsim", ref="5/C06",
-   text="Seeded populations of providers/consumers under K schedules; soundness of every populated point on every run (also failed ones), completeness and exactly-once of slices and non-emptiness of single points on successful runs, against the resolver reference model.",
+   text="Seeded populations of providers/consumers under K schedules; soundness of every populated point on every run (also failed ones), completeness and exactly-once of slices and non-emptiness of single points on successful runs, against the resolver reference model. Points typed any / []any and selected by type are included (the container's own components are candidates too; a unique Primary of the program wins).",
    note="slice element order is not asserted", technique=STARTSIM + "; oracle: resolver reference model"),
  "C07": dict(cat="exploration", engine="startsim", ref="5/C07",
    text="Seeded programs with by-name points (custom / default / absent names, names of incompatible type, required and optional, pointer / interface / any fields, rare duplicate registrations) under K schedules; the point must hold exactly the instance registered under the name; absent/incompatible => error (no panic) when required, untouched when optional; duplicates rejected.",
@@ -33,13 +33,13 @@ CHECKS = {
    text="Seeded cyclic and acyclic programs plus a wrap plan (who is substituted, at which callback: early reference / before init / after init / before instantiation; consistently or with different substitutes; 1-2 substituting processors of all order classes) x K schedules (who asks first). If Run succeeded, every holder - including those that were handed an early reference - and the by-name lookup hold the one published version. Failure is always admissible.",
    note="that consistent substitution must succeed is not asserted", technique=STARTSIM + "; fault kind: component substitution by post-processors; oracle: pointer identity per component"),
  "C04": dict(cat="fault_enumeration", engine="startsim+regsim", ref="5/C04",
-   text="Three sources of histories checked call by call against a small reference state machine of the three-level cache: (1) regsim drives the real registry directly with generated creation trees and enumerates every failure position of every tree, then continues with lookups, direct get-or-creates and re-creates; (2) a tracer on every real start, fault-free and with every discovered callback site failing (transient and permanent), (3) GetComponentByName for every component on the same App after each failed start (black box). Complete per explored tree / start; trees and programs are sampled by seed.",
+   text="Three sources of histories checked call by call against a small reference state machine of the three-level cache: (1) regsim drives the real registry directly with generated creation trees and enumerates every failure position of every tree, then continues with lookups, direct get-or-creates and re-creates; (2) a tracer on every real start, fault-free and with every discovered callback site failing (transient and permanent), (3) GetComponentByName for every component on the same App after each failed start (black box). Complete per explored tree / start; trees and programs are sampled by seed. regsim factories may publish their own name themselves and may hand back what they built together with the error.",
    note="the tracer is a pass-through decorator installed through hook H1", technique="deterministic simulation with fault injection: enumerated creation failures on generated creation trees (regsim) and on real starts (startsim); oracle: executable reference state machine of the singleton cache"),
  "C05": dict(cat="exploration", engine="startsim", ref="5/C05",
-   text="Seeded DAGs / diamonds / cycles with tails, lazy-eager mixes and 1-4 observing post-processors of all classes, under K schedules. Event-log checker: before* < AfterPropertiesSet < Init < after*, each at most once on any run and exactly once on successful ones; wiring and configuration snapshot at the first before-init callback equals the final population; when Init(c) runs every dependency that does not depend back on c has finished; lazy components have a lifecycle iff a created component holds or names them.",
+   text="Seeded DAGs / diamonds / cycles with tails, lazy-eager mixes and 1-4 observing post-processors of all classes, under K schedules. Event-log checker: before* < AfterPropertiesSet < Init < after*, each at most once on any run and exactly once on successful ones; wiring and configuration snapshot at the first before-init callback equals the final population; when Init(c) runs every dependency that does not depend back on c has finished; lazy components have a lifecycle iff a created component holds or names them. A few discovered callback sites (early-reference callbacks first) are also made to fail in turn: once per creation attempt and in lifecycle order is judged on every run.",
    note="dependencies-first is judged on the observed wiring graph; substituting programs are exempt", technique=STARTSIM + "; oracle: event-log lifecycle checker"),
  "C09": dict(cat="fault_enumeration", engine="startsim", ref="5/C09",
-   text="Per generated program and explored schedule every callback site discovered by the fault-free run (Init, AfterPropertiesSet, every post-processor callback for every component including the container's own) is made to fail singly - exhaustive per (program, schedule) - plus sampled pairs; unsatisfiable required / optional points are judged by the start-outcome model. Oracle: Run returns an error, no panic, terminates, no runner invoked; optional-only shortfalls never fail and leave the field empty.",
+   text="Per generated program and explored schedule every callback site discovered by the fault-free run (Init, AfterPropertiesSet, every post-processor callback for every component including the container's own) is made to fail singly - exhaustive per (program, schedule) - plus sampled pairs; unsatisfiable required / optional points are judged by the start-outcome model. Oracle: Run returns an error, no panic, terminates, no runner invoked; optional-only shortfalls never fail and leave the field empty. A share of the substituting family is included (a failure inside a lookup whose caller copes with the error is not Run's to report).",
    note="a fault counts only if it fired in that run", technique=STARTSIM + " + exhaustive single-fault injection at discovered callback sites; oracle: clean-failure checker + start-outcome model"),
  "C12": dict(cat="exploration", engine="startsim", ref="5/C12",
    text="Seeded programs with post-processors, runners (and simulated loaders) of all three order classes, Order values with ties / negatives / extremes; the arrival order at the (unstable) sorter is permuted by the schedule. Observed callback sequences must be a contract order (priority-ordered < ordered < unordered, Order non-decreasing in the first two groups), every participant exactly once.",
@@ -48,22 +48,22 @@ CHECKS = {
    text="Seeded programs with 0-6 runners (lazy ones included) under K schedules; on the first three schedules every runner in turn fails (exhaustive per explored schedule). Oracle: every runner exactly once on success, nothing is initialised after the first runner started, contract order, a failing runner makes Run fail and no later runner is invoked.",
    note="", technique=STARTSIM + " + exhaustive runner-failure injection; oracle: event-log checker"),
  "C14": dict(cat="exploration", engine="closesim", ref="5/C14",
-   text="After a successful Run with 0-12 closers App.Close runs inside the bubble. Hook H3 parks every goroutine App.Close starts before it invokes its closer; slow closers park again inside Close(), fast ones return at once; a seed-chosen subset fails. The scheduler releases one task at a time in a seeded order. Invariants at every quiescent point: all closer goroutines exist before anything is released, a released closer is always invoked whatever the others did, Close has not returned while any closer is pending; at the end every closer ran exactly once and Close returned (bounded liveness, no wall clock).",
+   text="After a successful Run with 0-12 closers App.Close runs inside the bubble. Hook H3 parks every goroutine App.Close starts before it invokes its closer; slow closers park again inside Close(), fast ones return at once; a seed-chosen subset fails. The scheduler releases one task at a time in a seeded order. Invariants at every quiescent point: all closer goroutines exist before anything is released, a released closer is always invoked whatever the others did, Close has not returned while any closer is pending; at the end every closer ran exactly once and Close returned (bounded liveness, no wall clock). Since wave 14 the scheduler may also let seconds of simulated time (the bubble's clock) pass while closers are parked - a timer inside the container would fire - and the shutdown that follows a start which failed because a runner returned an error is judged too (runners that are closers as well).",
    note="synctest quiescence detection trusted", technique="deterministic simulation (closesim): App.Close in a testing/synctest bubble, closers parked at start and inside Close, seeded release order and failing subset; invariants at every quiescent point"),
  "C11": dict(cat="exploration", engine="startsim", ref="5/C11",
    text="Twin programs - every tagged field declared directly vs the same fields inside anonymous, untagged, by-value embedded structs (depth 1-3, exported and unexported carriers) - run under identical picks: same outcome, same wiring on every non-tied point, same bound configuration, same tag records. Frame fields of six kinds carry sentinels that must survive every run. 0-2 custom tag scanners (parked and interleaved inside the parallel scanning phase) must receive exactly the exported fields carrying their tag, with value and arguments.",
    note="schedule dependence is weak by design (each scanner goroutine works on its own definition); dominated by program generation, claimed for the phase in which scanning runs concurrently", technique=STARTSIM + "; oracle: twin equivalence, frame sentinels, recording tag processor"),
  "C15": dict(cat="exploration", engine="startsim", ref="5/C15",
-   text="Seeded source sets (raw documents, real FileLoader on files written into the run's scratch directory, real ArgsLoader over a simulated argv, simulated loaders of all order classes) with overlapping and disjoint key trees, added through every option in a generated order, with rare injected source faults. Oracle: reference deep merge in contract order (all orders the contract admits), compared with App.Get for every leaf and with a prefix-bound struct.",
+   text="Seeded source sets (raw documents, real FileLoader on files written into the run's scratch directory, real ArgsLoader over a simulated argv, simulated loaders of all order classes) with overlapping and disjoint key trees, added through every option in a generated order, with rare injected source faults. Oracle: reference deep merge in contract order (all orders the contract admits), compared with App.Get for every leaf and with a prefix-bound struct. A share of the programs has 13-24 sources of mostly one rank, command-line sources that blank a key, and simulated loaders that settle their order only before the second initialisation.",
    note="precedence is judged on fault-free source sets; viper is trusted for YAML decoding", technique="deterministic simulation (startsim, configuration slice) with injected source faults; oracle: reference merge model"),
  "C18": dict(cat="exploration", engine="startsim", ref="5/C18",
-   text="Seeded components with configuration fields from a fixed menu (placeholders, defaults, prop shorthand, #{${a}+${b}}, #{${a}*${b}}, prefix-bound values, literals; optional validate constraints) next to user instantiation-aware processors of all order classes; the schedule permutes the arrival order of all processors at the unstable sorter. Oracle: a small evaluator of the menu; Run fails exactly when a bound value violates its constraint or a required value is missing.",
+   text="Seeded components with configuration fields from a fixed menu (placeholders, defaults, prop shorthand, #{${a}+${b}}, #{${a}*${b}}, prefix-bound values, literals; optional validate constraints) next to user instantiation-aware processors of all order classes; the schedule permutes the arrival order of all processors at the unstable sorter. Oracle: a small evaluator of the menu; Run fails exactly when a bound value violates its constraint or a required value is missing. The menu also has comparison, conjunction, conditional, three-operand, remainder, quotient (float) and string-concatenation expressions (also with blanks at the end), two-default expressions, gt/lt/eq/ne/len constraints, structs whose constraints sit behind a pointer, holders that name their section per instance, and scalar fields the application preset.",
    note="narrow value domain by design: the biconditional over arbitrary values and expressions is input generation, outside this technique", technique="deterministic simulation (startsim, configuration slice); oracle: menu evaluator (placeholder -> expression -> bind -> validate)"),
  "C20": dict(cat="exploration", engine="racesim+linsim", ref="5/C20",
-   text="racesim: generated programs with 8-60 components, 1-3 custom scanners and closers run with the scheduler in parallel mode under the Go race detector; several scanner invocations / closers fail at the same time; zero reports demanded. linsim: the concurrent utilities compiled from a scratch copy with a yield point before every statement; seeded single-runner interleavings of 2-4 clients; porcupine linearizability check against a sequential map / set, with Range as one step and with Range interleavable; plus the plain 'two callers never both win' invariant.",
+   text="racesim: generated programs with 8-60 components, 1-3 custom scanners and closers run with the scheduler in parallel mode under the Go race detector; several scanner invocations / closers fail at the same time; zero reports demanded. linsim: the concurrent utilities compiled from a scratch copy with a yield point before every statement; seeded single-runner interleavings of 2-4 clients; porcupine linearizability check against a sequential map / set, with Range as one step and with Range interleavable; plus the plain 'two callers never both win' invariant. linsim also instruments the default definition registry (GetMetaOrRegister / GetMetaByName / RegisterMeta / GetMetas against the sequential map; locks in instrumented code are taken cooperatively, a state in which every live client waits for a lock is a violation of its own); racesim runs programs with an odd index under the library's own logger, and failing closers return an error object whose Error() reads a word the application writes once App.Close has returned.",
    note="the race detector's happens-before analysis, porcupine and Go's sync.Map are trusted; each call into sync.Map is one atomic step", technique="deterministic simulation: parallel-wave release under the race detector (racesim) + cooperative scheduling at AST-inserted yield points with porcupine (linsim)"),
  "C10": dict(cat="exploration", engine="startsim", ref="5/C10",
-   text="Metamorphic sweep: each generated program is started under K schedules (canonical, reversed, random: registration permutation x three enumeration orders x scan interleaving). Same success/failure for programs without tied points, same target on every non-tied point, agreement with the start-outcome model where it has a verdict.",
+   text="Metamorphic sweep: each generated program is started under K schedules (canonical, reversed, random: registration permutation x three enumeration orders x scan interleaving). Same success/failure for programs without tied points, same target on every non-tied point, agreement with the start-outcome model where it has a verdict. A share of the programs carries a custom scanner that refuses some definitions under every schedule (the start must be refused whatever the interleaving of the scanning phase), and the batches open with rings in which one member is substituted (with and without a holder outside the ring).",
    note="error texts are never compared; with substitution only cross-run stability is demanded", technique=STARTSIM + "; oracle: cross-schedule comparison (metamorphic)"),
 }
 
